@@ -117,6 +117,10 @@ class WriteEncoder:
 
     def writeString(self, tag, data, packed = False):
         tok = self.tokenDictionary.getIndex(tag)
+        if tok and not tok[1] and tok[0] < 3:
+            # the first three entries are markers (empty list, stream start, stream end), not string tokens: the
+            # decoder does not read them back as strings
+            tok = None
         if tok:
             index, secondary = tok
             if not secondary:
